@@ -151,18 +151,22 @@ theorem C19_amount_vec (signed : Bool) (e : AmtEnc) (xs : List Int)
   apply mapOpt_map
   intro a ha
   obtain ⟨h1, h2⟩ := h a ha
-  have := C19_amount_single signed e a h1 h2
-  cases e with
-  | pico => exact this
-  | xmr => simpa [amtElemFromJson, amtFromJson, amtJ, readString, readBorrowedStr] using this
+  exact C19_amount_single signed e a h1 h2
 
 /-- … and a sequence containing one amount above the limit is refused as a whole when written as monero strings -/
 theorem C19_amount_vec_refused (signed : Bool) (xs : List Int) (a : Int) (ha : a ∈ xs) (h : InRange signed a)
     (hs : ¬ Small a) : amtVecFromJson signed .xmr (amtVecJ signed .xmr xs) = none := by
   simp only [amtVecFromJson, amtVecJ]
   apply mapOpt_none _ _ (amtJ signed .xmr a) (List.mem_map.mpr ⟨a, ha, rfl⟩)
-  have := C19_amount_xmr_refused signed a h hs
-  simpa [amtElemFromJson, amtFromJson, amtJ, readString, readBorrowedStr] using this
+  exact C19_amount_xmr_refused signed a h hs
+
+/-- the sequence reader reads every element exactly like the single-amount reader — whatever the JSON element is, in
+particular a string that was written with escape sequences or handed over as an owned string by a non-borrowing
+deserialiser (`serde_json::from_reader`, `from_value`). (Before the fix of `as_xmr::vec` the element reader asked for a
+borrowed `&str` and refused those; the harness cases `c19_amount_de … vec` with escapes and `c19_amount_rd` are the
+regression test.) -/
+theorem C19_amount_vec_reads_like_single (signed : Bool) (e : AmtEnc) (js : List Json) :
+    amtVecFromJson signed e (.arr js) = mapOpt (amtFromJson signed e) js := rfl
 
 /-- the same six paths used the documented way, as fields of a struct (`HasAmount { amount }`, `{ amounts }`) -/
 theorem C19_amount_in_struct (signed : Bool) (e : AmtEnc) :
